@@ -13,6 +13,10 @@ pub struct RegressOutcome {
 }
 
 pub fn run_for(prop: &str, replay: &dyn Fn(&Value) -> CaseResult) -> RegressOutcome {
+    if std::env::var("VERIF_SKIP_REGRESS").is_ok() {
+        // sensitivity experiments only: measure the generated search without the replay tier
+        return RegressOutcome { replayed: 0, known_confirmed: 0, violation: None };
+    }
     let dir = verif_dir().join("regress");
     let mut files: Vec<std::path::PathBuf> = match std::fs::read_dir(&dir) {
         Ok(rd) => rd.filter_map(|e| e.ok().map(|e| e.path())).filter(|p| p.extension().map(|x| x == "json").unwrap_or(false)).collect(),
